@@ -88,11 +88,27 @@ def scenarios(tier, seed):
             kinds = ("euclid", "euclid", "gauss")
         offset = rng.choice([0.0, 0.0, 50.0, 800.0, 1e5, -1e4])
         scale = rng.choice([1.0, 1.0, 0.3, 4.0])
+        steep = (not heavy) and rng.random() < 0.2  # neighbouring orbit states whose energies differ by tens to hundreds
+        if steep:
+            scale = rng.choice([300.0, 1000.0])
         spec = zoo.random_system_spec(rng, kinds=kinds, dims=(1, 2, 2, 3), offset=offset, scale=scale)
         implicit_ok = rng.random() < 0.2
         ispec = zoo.random_integrator_spec(rng, spec["kind"], allow_implicit_for_tractable=implicit_ok)
         ispec["step_size"] = rng.choice([0.01, 0.1, 0.3, 0.5, 0.8, 1.2]) if not heavy else rng.choice([0.05, 0.15, 0.3, 0.5])
+        if steep:
+            # quadratic target, leapfrog step just inside the stability limit: the energy error oscillates with an
+            # amplitude of several times the (large) energy, so neighbouring states differ by tens to hundreds
+            spec["target"]["b"] = 0.0
+            ispec = {"type": "leapfrog", "step_size": None}
+            try:
+                sys_, _ = zoo.build_system(spec)
+                lam = float(np.max(np.abs(np.linalg.eigvals(np.asarray(sys_.metric.inv @ np.array(spec["target"]["A"]))))))
+            except Exception:  # noqa: BLE001
+                lam = 1.0
+            ispec["step_size"] = rng.choice([1.8, 1.95, 1.98]) / math.sqrt(scale * max(lam, 1e-12))
         trans = rng.choice(["static", "random", "multinomial", "multinomial", "slice", "slice"])
+        if steep and rng.random() < 0.6:
+            trans = "multinomial"
         ts = {"type": trans}
         if trans == "static":
             ts["n_step"] = rng.choice([1, 2, 3, 5])
@@ -303,10 +319,10 @@ def _run_scenario(scn):
                 local = max(w[i] for i in range(j - rmax, j + rmax + 1))
                 tol = rho * w[j] + 1e-12 * local
                 err = abs(lhs - w[j])
-                worst = max(worst, err / w[j])
+                worst = max(worst, err / w[j]) if w[j] > 0 else worst if w[j] > 0 else worst
                 if err > tol:
                     res["violations"].append(violation("stationarity", f"{PROP} stationarity:{ts['type']}",
-                                                      f"sum over starts of w*P(start -> (k={j}, dir={e})) = {lhs:.12g} but w(k={j}) = {w[j]:.12g} (relative error {err / w[j]:.3e}); {res['sample']}",
+                                                      f"sum over starts of w*P(start -> (k={j}, dir={e})) = {lhs:.12g} but w(k={j}) = {w[j]:.12g} (relative error {err / max(w[j], 1e-300):.3e}); {res['sample']}",
                                                       end=[j, e]))
                     stats["worst_rel_residual"] = worst
                     return res
@@ -324,10 +340,10 @@ def _run_scenario(scn):
             local = max(w[i] for i in range(j - rmax, j + rmax + 1))
             tol = rho * w[j] + 1e-12 * local
             err = abs(lhs - w[j])
-            worst = max(worst, err / w[j])
+            worst = max(worst, err / w[j]) if w[j] > 0 else worst
             if err > tol:
                 res["violations"].append(violation("stationarity", f"{PROP} stationarity:{ts['type']}",
-                                                  f"sum over starts of w*P(start -> k={j}) = {lhs:.12g} but w(k={j}) = {w[j]:.12g} (relative error {err / w[j]:.3e}); {res['sample']}",
+                                                  f"sum over starts of w*P(start -> k={j}) = {lhs:.12g} but w(k={j}) = {w[j]:.12g} (relative error {err / max(w[j], 1e-300):.3e}); {res['sample']}",
                                                   end=[j]))
                 stats["worst_rel_residual"] = worst
                 return res
